@@ -95,6 +95,7 @@ func (pxy *UDPProxy) Run() (remoteAddr string, err error) {
 		err = errRet
 		return
 	}
+	verifhook.At("udp.run.acquired", "pxy", verifhook.ID(pxy.BaseProxy), "name", pxy.name, "port", pxy.realBindPort, "run_id", pxy.userInfo.RunID)
 	udpConn, errRet := net.ListenUDP("udp", addr)
 	verifhook.At("udp.listen", "pxy", verifhook.ID(pxy.BaseProxy), "name", pxy.name, "port", pxy.realBindPort, "err", errRet)
 	if errRet != nil {
@@ -265,5 +266,6 @@ func (pxy *UDPProxy) Close() {
 		close(pxy.sendCh)
 		verifhook.At("udp.close.unbound", "pxy", verifhook.ID(pxy.BaseProxy), "name", pxy.name, "port", pxy.realBindPort)
 	}
+	verifhook.At("udp.close.release", "pxy", verifhook.ID(pxy.BaseProxy), "name", pxy.name, "port", pxy.realBindPort)
 	pxy.rc.UDPPortManager.Release(pxy.realBindPort)
 }
